@@ -455,12 +455,14 @@ async fn run_script(w: &World, real_is_alice: bool, r: bool, sink: Option<usize>
             };
             let _ = peer_tx.send(m).await;
         }
-        if let (Some(k), Some(at)) = (sink, close_at) {
-            if !closed && at >= n_items {
-                read_until!(k);
+        if let Some(k) = sink {
+            if !closed && k == 0 && n_items == 0 {
+                // close before the real side's very first send
                 peer_rx = None;
             }
         }
+        // Script exhausted before the closing point: the real side cannot send more than `k`
+        // messages any more (it runs into the closed stream first), so just hang up and drain.
         drop(peer_tx);
         read_until!(usize::MAX);
     };
